@@ -43,6 +43,27 @@ class Purse:                     # custom serialisation; its data may hold other
         return self._coins + len(self.items)
 
 
+import dataclasses
+
+
+@dataclasses.dataclass(frozen=True)
+class Rune:                      # an immutable value object (frozen dataclass): attributes cannot be assigned after construction
+    glyph: str
+    power: int
+
+    def label(self):
+        return f"{self.glyph}^{self.power}"
+
+
+class Bonus:                     # a plain attribute object that is also callable (a modifier applied as bonus(10))
+    def __init__(self, amount, kind):
+        self.amount = amount
+        self.kind = kind
+
+    def __call__(self, x):
+        return x + self.amount
+
+
 try:
     from bardic.stdlib.inventory import Inventory as _Inventory
 
